@@ -19,7 +19,7 @@ RULE = ("cases = synthetic PeleLMeX checkpoints (1-3 levels, anisotropic and iso
 ASSUMPTIONS = ["checkpoint layout as in test_assets/example_chk_3d", "pool shim M1 with shuffled schedules",
                "cell sizes are derived as (hi-lo)/N like the tool does (the checkpoint does not store them)"]
 REQUIRED_OBS = {"conversions": 40, "with_reactions": 10, "with_gradp": 20, "floored": 15,
-                "anisotropic": 10, "default_output": 8, "ref_plotfile": 10, "second_checkpoint_same_process": 10}
+                "anisotropic": 10, "default_output": 8, "ref_plotfile": 10, "second_checkpoint_same_process": 10, "no_chk_in_name": 10}
 TIMEOUT = {"quick": 400, "thorough": 2000}
 SPECIES = ["H2", "O2", "N2", "H2O", "CH2(S)"]
 
@@ -110,6 +110,43 @@ def run_case(case, work, rec):
     g2["nghost"] = 1 + case["gen"]["nghost"] % 3
     rec.count("second_checkpoint_same_process")
     run_one(case, os.path.join(work, "second"), rec, g2, "chk00042", 3)
+    # default output (API and entry point) for a checkpoint directory named without 'chk': beside, never inside
+    from amr_kitchen.chk2plt.chk2plt import chk2plt
+    cli = common.repo_module("amr_kitchen.chk2plt.cli")
+    for form in ("api", "cli"):
+        d = os.path.join(work, "named_" + form)
+        os.makedirs(d)
+        chk = os.path.join(d, "restart00020")
+        m = chkgen.gen_chk(path=chk, **dict(case["gen"], nlevels=1))
+        ref = gen.gen_model(1, ndims=3, nlevels=1, names=["density"] + [f"Y({s})" for s in SPECIES[:m.nspecies]], bf=4, base_blocks=(1, 1))
+        refp = os.path.join(d, "pltref")
+        gen.write_plotfile(ref, refp)
+        h0 = tree_hash(chk)
+        before = set(os.listdir(d))
+        pools.CTL.reset(mode="inproc", seed=1)
+        poison.set_poison(np.nan)
+        key = (common.sha(case["gen"]), "no-chk-name", form)
+        try:
+            if form == "api":
+                chk2plt(chk, species=SPECIES[:m.nspecies])
+            else:
+                with common.argv(["chk2plt", "-c", chk, "-p", refp]):
+                    cli.main()
+            exc = None
+        except (Exception, SystemExit) as e:
+            exc = e
+        rec.count("no_chk_in_name")
+        new = sorted(set(os.listdir(d)) - before)
+        if tree_hash(chk) != h0:
+            rec.violation(f"conversion with the default output ({form}) wrote into a checkpoint whose directory name "
+                          f"holds no 'chk' (restart00020)", key=key, witness={"new_beside": new, "raised": repr(exc)[:200]})
+        elif exc is None and not new:
+            rec.violation(f"conversion with the default output ({form}) of checkpoint 'restart00020' returned normally "
+                          f"but no plotfile appeared beside it", key=key)
+        elif exc is None and not taste_ok(os.path.join(d, new[0])):
+            rec.violation(f"default output {new[0]} of checkpoint 'restart00020' ({form}) is rejected by validation", key=key)
+        else:
+            rec.ok(key, True)
 
 
 def run_one(case, work, rec, gparams, chkname, nconf):
